@@ -287,3 +287,95 @@ func runSchedules(r *ev.Run) {
 	r.Eval(int(total))
 	r.AddStates(points, points, total)
 }
+
+// runTwoSessions: two sessions check in at the same time, one task queued for each, while
+// an operator lists the tasks of the first (a third builder of task bytes).  Whatever
+// the interleaving (scheduling points at the queue, the locks, and any sync.Pool the
+// reply path might use), each agent's reply decodes under its own key to exactly its own
+// task: a reply is built per request and belongs to that request until it is written.
+func runTwoSessions(r *ev.Run) {
+	if !vsched.Instrumented {
+		return
+	}
+	bound := 2
+	if r.Thorough() {
+		bound = 3
+	}
+	r.Bounds["preemption_bound_two_sessions"] = bound
+	const id1, id2 = 0x0000d011, 0x0000d022
+	outcomes := map[string]bool{}
+	t := explore.Tree{Bound: bound, Deadline: time.Now().Add(deadline(r))}
+	t.Run(func(c *explore.Chooser) {
+		ts := seam.New(seam.Options{})
+		defer ts.Close()
+		ts.MustRegister(id1, 1)
+		ts.MustRegister(id2, 2)
+		ts.Task(id1, "00001111", agent.COMMAND_SLEEP, map[string]any{"Arguments": "5;10"})
+		ts.Task(id2, "00002222", agent.COMMAND_CHECKIN, nil)
+		s := vsched.New(c, 20000, "JobQueue", "Tasks", "sync.Mutex", "sync.Pool")
+		got := map[uint32]string{}
+		for _, x := range []struct {
+			id uint32
+			k  byte
+		}{{id1, 1}, {id2, 2}} {
+			x := x
+			s.Spawn(fmt.Sprintf("listener-%08x", x.id), func() {
+				res, tasks, err := ts.CheckIn(x.id, x.k)
+				switch {
+				case res.Panic != nil && vsched.IsAbort(res.Panic):
+				case res.Panic != nil:
+					got[x.id] = fmt.Sprintf("panic: %v", res.Panic)
+				case res.Status != 200 || err != nil:
+					got[x.id] = fmt.Sprintf("status=%d err=%v", res.Status, err)
+				default:
+					var l []string
+					for _, tk := range tasks {
+						l = append(l, fmt.Sprintf("cmd=%d req=%08x", tk.Cmd, tk.ReqID))
+					}
+					got[x.id] = strings.Join(l, ",")
+				}
+			})
+		}
+		s.Spawn("operator", func() {
+			ts.Task(id1, "00003333", agent.COMMAND_JOB, map[string]any{"Command": "list"})
+		})
+		s.Run()
+		detail := map[string]any{"choices": c.Choices(), "schedule_tail": tailStr(s.Trace, 40), "replies": got}
+		want1a := fmt.Sprintf("cmd=%d req=00001111", agent.COMMAND_SLEEP)
+		want1b := want1a + fmt.Sprintf(",cmd=%d req=00003333", agent.COMMAND_JOB)
+		want2 := fmt.Sprintf("cmd=%d req=00002222", agent.COMMAND_CHECKIN)
+		obs := fmt.Sprintf("%v | %v", got[id1], got[id2])
+		outcomes[obs] = true
+		switch {
+		case len(s.Panics) > 0:
+			r.Violate("sched-two-sessions/panic/"+ev.Normalize(s.Panics[0]), s.Panics[0], detail)
+		case s.Deadlock:
+			r.Violate("sched-two-sessions/deadlock", s.DeadlockWhy, detail)
+		case s.HorizonHit:
+			r.Violate("sched-two-sessions/horizon", "did not finish", detail)
+		case got[id1] != want1a && got[id1] != want1b:
+			r.Violate("sched-two-sessions/reply-of-another-request", fmt.Sprintf("session %08x received [%s], its queue held [%s]", id1, got[id1], want1a), detail)
+		case got[id2] != want2:
+			r.Violate("sched-two-sessions/reply-of-another-request", fmt.Sprintf("session %08x received [%s], its queue held [%s]", id2, got[id2], want2), detail)
+		}
+	})
+	if t.Err != nil {
+		r.Violate("harness/nondeterminism", t.Err.Error(), nil)
+	}
+	if t.Capped {
+		r.NotExhaustive("two-sessions schedules stopped by the internal deadline")
+	}
+	for o := range outcomes {
+		r.Outcome("sched-two-sessions/" + o)
+	}
+	r.Extra["schedules_two_sessions"] = map[string]any{"executions": t.Executions, "choice_points": t.Points, "preemption_bound": bound, "distinct_observations": len(outcomes)}
+	r.Eval(int(t.Executions))
+	r.AddStates(t.Points, t.Points, t.Executions)
+}
+
+func tailStr(s []string, n int) []string {
+	if len(s) > n {
+		return s[len(s)-n:]
+	}
+	return s
+}
